@@ -92,6 +92,31 @@ def fromSerializable (rv : RowVal) (cols : List Col) : Except BindErr SV :=
     | none => .error .tooManyValues
     | some sv => .ok sv
 
+/-! ### batches (`scylla-cql/src/serialize/raw_batch.rs:131-170`, `frame/request/batch.rs:82-135`)
+
+`RawBatchValuesAdapter` pairs the value lists with one `RowSerializationContext` PER STATEMENT (`contexts.next()` in
+`serialize_next` / `skip_next`); `Batch::do_serialize` gives every statement its own `RowWriter` on the request buffer,
+converts its count to `u16` (`TooManyValues`), refuses fewer value lists than statements (`serialize_next` = `None`) and,
+after the last statement, more value lists than statements (`skip_next` = `Some`).  On any error the request is not built. -/
+
+inductive BatchErr where
+  | countsMismatch
+  | stmt (idx : Nat) (e : BindErr)
+  deriving Repr, DecidableEq, Inhabited
+
+/-- The value lists of a batch bound statement by statement, each against ITS OWN statement's bind markers. -/
+def bindBatch : List (List Col) → List (List RVal) → Nat → Except BatchErr (List SV)
+  | [], [], _ => .ok []
+  | [], _ :: _, _ => .error .countsMismatch
+  | _ :: _, [], _ => .error .countsMismatch
+  | cols :: ss, vs :: rs, i =>
+    match fromSerializable (.seq vs) cols with
+    | .error e => .error (.stmt i e)
+    | .ok sv =>
+      match bindBatch ss rs (i + 1) with
+      | .error e => .error e
+      | .ok svs => .ok (sv :: svs)
+
 /-! ### `new_from_frame` -/
 
 /-- `n` successive `read_value`s; the unread rest. -/
